@@ -257,9 +257,18 @@ func (parser *Parser) ParseArray(depth int) (Sexp, error) {
 	return &SexpArray{Val: arr, Env: parser.env}, nil
 }
 
+// MaxParseRecur bounds the nesting of the text the parser accepts: every
+// ParseExpression, and every ParseList, ParseArray or ParseInfix it hands a
+// bracket to, counts one while it runs. That is 10000 nested brackets, or
+// 20000 quote prefixes in a row. (The parser descends by Go recursion.)
+const MaxParseRecur = 20000
+
 func (parser *Parser) ParseExpression(depth int) (res Sexp, err error) {
 	parser.recur++
 	defer func() { parser.recur-- }()
+	if parser.recur > MaxParseRecur {
+		return SexpNull, fmt.Errorf("expression nested too deep (more than %d levels)", MaxParseRecur/2)
+	}
 
 	// defer func() {
 	// 	if res != nil {
